@@ -28,6 +28,7 @@ type Obs struct {
 	Vnp []Run  `json:"vnp"` // visible words of Result.Node outside embed placeholders, canonical runs
 	Ph  []Run  `json:"ph"`  // words inside embed placeholders
 	Hid []Run  `json:"hid"` // words under hidden elements of the output
+	Cmt []Run `json:"cmt"` // words inside comment nodes of the output
 
 	MediaKept []bool `json:"mkept"` // per Src.Media entry: is it present in Result.Node
 	NImgOut   int    `json:"nimgout"`
@@ -158,6 +159,11 @@ func (p *projector) appendHWords(runs []HRun, s string, c int, t bool) []HRun {
 
 func (p *projector) walk(n *html.Node, chain string, inPh, hid, inTbl bool) {
 	switch n.Type {
+	case html.CommentNode:
+		if !inPh {
+			p.obs.Cmt = p.appendWords(p.obs.Cmt, n.Data)
+		}
+		return
 	case html.TextNode:
 		switch {
 		case inPh && hid:
@@ -367,7 +373,7 @@ func digestResult(res *distiller.Result) map[string]string {
 // project builds the observation of a call. src may be nil (families that do not
 // use the token abstraction).
 func project(res *distiller.Result, err error, src *Src, chains, urls *interner) *Obs {
-	o := &Obs{Txt: []Run{}, Htm: []HRun{}, Vis: []Run{}, Vnp: []Run{}, Ph: []Run{}, Hid: []Run{},
+	o := &Obs{Txt: []Run{}, Htm: []HRun{}, Vis: []Run{}, Vnp: []Run{}, Ph: []Run{}, Hid: []Run{}, Cmt: []Run{},
 		MediaKept: []bool{}, CI: []int{}, DomImg: []int{}, Placeholders: [][]string{},
 		Census: map[string]int{}, Dig: map[string]string{}}
 	if err != nil || res == nil {
